@@ -11,6 +11,10 @@
 (***************************************************************************)
 EXTENDS DipTree, DipLiteral, Json
 
+\* scenario names are single characters (a, b, g, h, -) or n<k>; only their order matters
+GenNameChars(c) == <<c>>
+GenCharOrd(ch) == CASE ch = "-" -> 45 [] ch = "a" -> 97 [] ch = "b" -> 98 [] ch = "g" -> 103 [] ch = "h" -> 104 [] OTHER -> 120
+
 CONSTANTS LitIds, MaxInd, MaxLines
 
 VARIABLE text
